@@ -241,3 +241,73 @@ def plumbing_contracts():
                  'regexp.search(string).group())'],
         serves=('C19',), native=False))
     return cs
+
+
+# ===================== thin wrappers over the re module ====================
+
+def setup_wrappers(world):
+    setup(world)
+    import re as _re
+    from vlib.pyvc.interp import Model
+    for fname in ('UNICODE', 'IGNORECASE', 'MULTILINE', 'DOTALL'):
+        world.lib[('re', fname)] = int(getattr(_re, fname))
+    for fname in ('compile', 'search', 'escape'):
+        world.lib[('re', fname)] = Model(
+            're.' + fname, (lambda nm: lambda *a: models.apply_uf(
+                're.' + nm, a, 'Val'))(fname))
+    world.callee_contract(M + 'replace')
+    world.callee_contract(M + 'replace_by')
+
+
+def wrapper_contracts():
+    """regex(): exactly the requested flags (and UNICODE); the operator and
+    method forms search with the pattern on the right subject; the string
+    spellings (`string.split(regex)`, `string.replace(regex, ...)`) hand
+    their arguments on unchanged and in the right order."""
+    import re as _re
+    cs = []
+
+    def c(fname, **kw):
+        kw.setdefault('serves', ('C19',))
+        kw.setdefault('native', False)
+        x = Contract(M + fname, **kw)
+        cs.append(x)
+        return x
+    c('regex', params=dict(pattern=TStr, ignore_case=TBool, multi_line=TBool,
+                           dot_all=TBool),
+      ensures=['result == ufn("re.compile", pattern, %d + (%d if ignore_case '
+               'else 0) + (%d if multi_line else 0) + (%d if dot_all else 0))'
+               % (_re.UNICODE, _re.IGNORECASE, _re.MULTILINE, _re.DOTALL)])
+    for fn, neg in (('matches', False), ('matches_operator_regex', False),
+                    ('not_matches_operator_regex', True)):
+        c(fn, params=dict(regexp=TVal, string=TStr),
+          ensures=['result == (regexp.search(string) is %s None)' % (
+              '' if neg else 'not')])
+    c('matches_', params=dict(string=TStr, regexp=TStr),
+      ensures=['result == (ufn("re.search", regexp, string) is not None)'])
+    for fn, neg in (('matches_operator_string', False),
+                    ('not_matches_operator_string', True)):
+        c(fn, params=dict(string=TStr, pattern=TStr),
+          ensures=['result == (ufn("re.search", pattern, string) is %s None)'
+                   % ('' if neg else 'not')])
+    for fn in ('split', 'split_string'):
+        c(fn, params=dict(regexp=TVal, string=TStr, max_split=TInt),
+          ensures=['result == regexp.split(string, max_split)'])
+    c('replace', params=dict(regexp=TVal, string=TStr, repl=TStr, count=TInt),
+      ensures=['result == regexp.sub(repl, string, count)'])
+    c('replace_string', params=dict(string=TStr, regexp=TVal, repl=TStr,
+                                    count=TInt),
+      ensures=['len(calls) == 1 and calls[0][0] == "contract:regex.replace" '
+               'and calls[0][1][0] == regexp and calls[0][1][1] == string '
+               'and calls[0][1][2] == repl and calls[0][1][3] == count and '
+               'result == calls[0][2]'])
+    c('replace_by_string', params=dict(context=TVal, string=TStr,
+                                       regexp=TVal, repl=TFunc(1),
+                                       count=TInt),
+      ensures=['len(calls) == 1 and calls[0][0] == '
+               '"contract:regex.replace_by" and calls[0][1][0] == context '
+               'and calls[0][1][1] == regexp and calls[0][1][2] == string '
+               'and calls[0][1][4] == count and result == calls[0][2]'])
+    c('escape_regex', params=dict(string=TStr),
+      ensures=['result == ufn("re.escape", string)'])
+    return cs
